@@ -20,6 +20,7 @@ package configloader
 
 // The effective configuration map: every layer merged, lowest priority first, onto a map of its own; no layer's map is written.
 //@ func ConfigManager.loadConfig
+//@   params c, configName
 //@   tags C19
 //@   requires c != nil
 //@   loop 1 invariant -1 <= rangeindex && rangeindex < len(c.loaders) && res != nil && fresh(res)
@@ -37,6 +38,7 @@ package configloader
 // Degradation (C19): a good load is remembered as the last known good value; a bad load hands out the remembered value
 // (written over out as a whole through reflection) and reports no error; without a remembered value the error is returned.
 //@ func ConfigManager.LoadAndUnmarshalConfig
+//@   params c, configName, out
 //@   tags C19
 //@   requires c != nil
 //@   assumes out-is-a-pointer: isPtrVal(out)
@@ -65,6 +67,7 @@ package configloader
 //@   fresh result
 //@   ensures result != nil && result.m != nil && fresh(result.m)
 //@ func configCache.Store
+//@   params c, configName, config
 //@   requires c != nil
 //@   modifies smHas, smVal
 //@   ensures smHas == store(old(smHas), c.m, store(old(smHas)[c.m], iface(configName), true)) && smVal == store(old(smVal), c.m, store(old(smVal)[c.m], iface(configName), iface(config)))
@@ -73,6 +76,7 @@ package configloader
 //@     && smHas[cc.m][iface(configv1alpha1.ConfigName(k))] && smVal[cc.m][iface(configv1alpha1.ConfigName(k))] == iface(entryOf(data[k]))
 
 //@ func ConfigMapLoader.unmarshalConfigMap
+//@   params c, data
 //@   tags C19
 //@   modifies smHas, smVal
 //@   loop 1 invariant newConfigMap != nil && fresh(newConfigMap) && newConfigMap.m != nil && fresh(newConfigMap.m)
@@ -83,6 +87,7 @@ package configloader
 //@   ensures [C19] other-caches-untouched: forall m *sync.Map :: old(allocated(m)) ==> smHas[m] == old(smHas[m]) && smVal[m] == old(smVal[m])
 
 //@ func ConfigMapLoader.handleUpdate
+//@   params c, obj
 //@   tags C19
 //@   requires c != nil
 //@   modifies c.cache, smHas, smVal
